@@ -344,9 +344,8 @@ func (c *Ctx) verifyTransducer(fn *ssa.Function, mode tdMode, rule string) {
 		absint.SetGhost(st, t.em, absint.Const(start))
 		absint.SetGhost(st, t.c7d, absint.Const(start))
 		a.OnExternal = func(f2 *ssa.Function, site ssa.Instruction, name string, st *absint.State, args []absint.Term) {
-			if f2 != fn {
-				return
-			}
+			// writes to a bytes.Buffer count at every inlining depth: a helper that is handed the output buffer writes
+			// output (ignoring it would let a helper emit bytes the proof never sees)
 			call, _ := site.(*ssa.Call)
 			switch name {
 			case "(*bytes.Buffer).Write", "(*bytes.Buffer).WriteString":
